@@ -51,6 +51,12 @@ def _to_ndarray(data):
         return raw
 
     converted = [data[name] for name in names]
+    for i, name in enumerate(names):
+        # Signed bytes are stored as unsigned bytes with an offset of -128, which
+        # astropy converts to floating point.
+        if raw.dtype[name].base == np.uint8 and data.columns[name].bzero == -128:
+            converted[i] = (raw[name].astype(np.int16) - 128).astype(np.int8)
+
     if all(col.dtype == raw.dtype[name].base for col, name in zip(converted, names)):
         return raw
 
@@ -350,7 +356,7 @@ def _write_filename(filename, c_hdr, s_hdr, cov_index_map, sparse_map,
                                         quantize_level=0.0)
         else:
             if sparse_map.dtype.fields is not None:
-                hdu = fits.BinTableHDU(data=sparse_map, header=fits.Header())
+                hdu = _make_table_hdu(sparse_map)
             else:
                 hdu = fits.ImageHDU(data=sparse_map, header=fits.Header())
 
@@ -430,12 +436,40 @@ def _write_healpix_filename(filename, hdr, output_struct):
     """
     hdu_list = fits.HDUList()
 
-    hdu = fits.BinTableHDU(data=output_struct, header=fits.Header())
+    hdu = _make_table_hdu(output_struct)
 
     _make_hierarch_header(hdr, hdu.header, skip_reserved=False)
     hdu_list.append(hdu)
 
     hdu_list.writeto(filename, overwrite=True)
+
+
+def _make_table_hdu(data):
+    """Make an astropy binary table HDU from a structured array.
+
+    Signed 8-bit integer fields are written as unsigned bytes with an offset
+    (the FITS convention); astropy would otherwise store them as logicals.
+
+    Parameters
+    ----------
+    data : `np.ndarray`
+        Structured array.
+
+    Returns
+    -------
+    hdu : `astropy.io.fits.BinTableHDU`
+    """
+    if not any(data.dtype[name].base == np.int8 for name in data.dtype.names):
+        return fits.BinTableHDU(data=data, header=fits.Header())
+
+    columns = []
+    for column in fits.ColDefs(data):
+        if data.dtype[column.name].base == np.int8:
+            column = fits.Column(name=column.name, format=column.format.replace('L', 'B'),
+                                 bzero=-128, array=data[column.name])
+        columns.append(column)
+
+    return fits.BinTableHDU.from_columns(columns, header=fits.Header())
 
 
 def _make_hierarch_header(hdr_in, hdr_out, skip_reserved=True):
